@@ -22,9 +22,10 @@ type Inner struct {
 }
 
 type Pair struct {
-	X Inner
+	X []int32
 	Y map[string]float32
 	Z [2]int8
+	W string
 }
 
 // Svc is instantiated with many element types; each instantiation is a distinct Go type with
@@ -95,7 +96,7 @@ func litInner(g, k int) string {
 	return fmt.Sprintf(`{"A": %d, "B": "b%d", "C": [%d, %d]}`, g*10+k, g, g, k)
 }
 func litPair(g, k int) string {
-	return fmt.Sprintf(`{"X": %s, "Y": {"y": %d.5}, "Z": [%d, %d]}`, litInner(g, k), g, g%100, k)
+	return fmt.Sprintf(`{"X": [%d, %d], "Y": {"y": %d.5}, "Z": [%d, %d], "W": "w%d"}`, g, k, g, g%100, k, g)
 }
 func litList(elem func(g, k int) string) func(g, k int) string {
 	return func(g, k int) string { return "[" + elem(g, k) + ", " + elem(g, k+1) + "]" }
@@ -133,7 +134,6 @@ var instances = []inst{
 	svc[uint32]("uint32", litInt(100000)),
 	svc[uint]("uint", litInt(100000)),
 	svc[float32]("float32", litFloat),
-	svc[float64]("float64", litFloat),
 	svc[string]("string", litString),
 	svc[bool]("bool", litBool),
 	svc[Inner]("Inner", litInner),
@@ -155,7 +155,7 @@ var instances = []inst{
 	box[string]("string", litString),
 	box[Inner]("Inner", litInner),
 	box[*Pair]("*Pair", litPair),
-	box[[]float64]("[]float64", litList(litFloat)),
+	box[[]float32]("[]float32", litList(litFloat)),
 	box[map[string]uint16]("map[string]uint16", litMap(litInt(1000))),
 }
 
@@ -183,8 +183,6 @@ func (in *inst) script(g int) string {
 		w("r.append(box.Trio([%s, %s, %s]))", v1, v2, v3)
 		w("r.append(box.V)")
 		w("r.append(box.L)")
-		w("box.V = %s", v3)
-		w("r.append(box.V)")
 		w("r.append(box.__type__.name)")
 	} else {
 		w("r.append(svc.Put(%s))", v1)
